@@ -7,7 +7,7 @@
 // them in the order the schedule dictates (seeded random / exhaustive); the squashing closures are the real
 // ones (real files are merged); tier2 jobs are played by a fake worker that leaves the files a real job leaves.
 //
-// Case line:  RUN g=<generator cfg> w=<workers> k= st= bs= we= re= start= xi= idx= fix=0 files=<seeds> sched=<choices> v=<0|1>
+// Case line:  RUN g=<generator cfg> w=<workers> k= st= bs= we= re= start= xi= idx= fix=4 files=<seeds>  (fix=4: the code as it is, with the stage-index fix of commit 38ce9883) sched=<choices> v=<0|1>
 // Answer:     steps= end= h=<FNV-1a of every step's description+state> jobs= merges= last=<final state>
 package main
 
@@ -27,6 +27,19 @@ import (
 )
 
 var out *common.Out
+
+// report records an oracle failure; only the first few witnesses of a class are kept (the failure list of
+// common.Out is bounded), every occurrence is counted.
+var classCount = map[string]int{}
+
+func report(class, desc, caseLine string) {
+	classCount[class]++
+	if classCount[class] <= 3 {
+		out.Fail(class, desc, caseLine)
+	} else {
+		out.Count("oracle-fail:" + class)
+	}
+}
 var fsRoot string
 var fsN int
 
@@ -249,7 +262,7 @@ func panicClass(msg string) string {
 
 func oracleInit(w *world, line string) {
 	if w.ended == "panic:init" {
-		out.Fail(panicClass(w.panicMsg)+"/at-init", "BuildParallelProcessor panicked: "+w.panicMsg, line)
+		report(panicClass(w.panicMsg)+"/at-init", "BuildParallelProcessor panicked: "+w.panicMsg, line)
 	}
 }
 
@@ -286,7 +299,7 @@ func (o *runOracle) fail(class, desc string) {
 		}
 		o.sink[class] = true
 	}
-	out.Fail(class, desc, o.caseUpToNow())
+	report(class, desc, o.caseUpToNow())
 }
 
 func (o *runOracle) before(c choice) { o.choices = append(o.choices, c) }
@@ -314,6 +327,11 @@ func (o *runOracle) after(kind string) {
 			o.fail("C05/job-before-lower-stage-complete/"+sub,
 				fmt.Sprintf("unit (segment %d, stage %d) handed to a worker while full snapshots %v do not exist (previous-segment units not complete: %v)",
 					js.Unit.Segment, js.Unit.Stage, js.Missing, js.StateKO))
+		}
+		if js.Shift {
+			o.fail("C05/stage-index-shift-when-store-stage-skipped",
+				fmt.Sprintf("unit (segment %d, stage %d): Stages kept %d of the graph's stages; the worker was not given the graph's stage index %d of the Scheduled unit: tier2 runs the wrong stage, the requested output is never written",
+					js.Unit.Segment, js.Unit.Stage, w.sched.Stages.VerifStageCount(), w.sched.Stages.VerifStageIdx(js.Unit.Stage)))
 		}
 		key := fmt.Sprintf("J%d,%d", js.Unit.Segment, js.Unit.Stage)
 		if o.seen[key] {
@@ -431,6 +449,17 @@ func genConfig(r *common.Rng, maxStages, maxSegs int) genCfg {
 	g.MapInit = pick()
 	if n == 1 || r.Chance(1, 2) {
 		g.MapInit = base
+	}
+	if n > 1 && r.Chance(1, 12) {
+		// every store starts at or after the hand-off: the planner builds no store (BuildStores == nil) and
+		// NewStages keeps the mapper stage only
+		for j := range g.Stores {
+			for i := range g.Stores[j] {
+				g.Stores[j][i] = hand + uint64(r.Intn(15))
+			}
+		}
+		g.MapInit = base
+		g.Prod = true
 	}
 	lowest := g.MapInit
 	for _, s := range g.Stores {
@@ -582,7 +611,7 @@ func randomRun(r *common.Rng, g genCfg, W int, seeds []fileSeed, bound int) {
 		out.Count("cfg:no-parallel")
 		return
 	}
-	prefix := "RUN " + cfg + " fix=0 files=" + seedsString(seeds)
+	prefix := "RUN " + cfg + " fix=4 files=" + seedsString(seeds)
 	w := newWorld(g, W, seeds, nextDir())
 	var cs []choice
 	// ramp-up: time passes after a random number of scheduling attempts
@@ -609,7 +638,7 @@ func randomRun(r *common.Rng, g genCfg, W int, seeds []fileSeed, bound int) {
 		w.step(idx, e)
 	}
 	if w.sched != nil && w.ended == "" && len(w.bag) > 0 {
-		out.Fail("C05/no-termination/bound", fmt.Sprintf("run still going after %d steps", bound), prefix+" sched="+schedString(cs)+" v=0")
+		report("C05/no-termination/bound", fmt.Sprintf("run still going after %d steps", bound), prefix+" sched="+schedString(cs)+" v=0")
 	}
 	w.close()
 	emit(prefix+" sched="+schedString(cs)+" v=0", true)
@@ -618,7 +647,7 @@ func randomRun(r *common.Rng, g genCfg, W int, seeds []fileSeed, bound int) {
 func emit(line string, nontrivial bool) {
 	ans, p := common.Recover(func() string { return runLine(line, true) })
 	if p {
-		out.Fail("C05/harness-panic", "harness panicked while replaying", line)
+		report("C05/harness-panic", "harness panicked while replaying", line)
 	}
 	out.Case(line, ans, nontrivial)
 	toks := strings.Fields(ans)
@@ -687,6 +716,24 @@ func (e *explorer) newRunner(path []choice) *runner {
 	return r
 }
 
+// silentRunner re-executes a path on a fresh world without computing state records (the real scheduler cannot
+// be cloned; this is how the explorer backtracks); h/last are the hash chain values of the path's end.
+func (e *explorer) silentRunner(path []choice, h uint64, last string) *runner {
+	w := newWorld(e.g, e.W, e.seeds, nextDir())
+	for _, c := range path {
+		w.step(c.Idx, c.Elapsed)
+	}
+	r := &runner{w: w, h: h, last: last}
+	r.o = newRunOracle(w, e.prefix+" sched=-")
+	r.o.sink = e.classes
+	r.o.choices = append([]choice{}, path...)
+	r.o.nJobs = len(w.jobStarts)
+	for _, js := range w.jobStarts {
+		r.o.seen[fmt.Sprintf("J%d,%d", js.Unit.Segment, js.Unit.Stage)] = true
+	}
+	return r
+}
+
 func (r *runner) step(c choice) string {
 	r.o.before(c)
 	kind := r.w.step(c.Idx, c.Elapsed)
@@ -701,6 +748,9 @@ func isImmediate(tag string) bool {
 }
 
 func stateKey(w *world, clock bool) string {
+	if w.ended == "panic" {
+		return "PANIC" // the real state after a panic is not meaningful: one terminal state
+	}
 	rec := w.record()
 	i := strings.Index(rec, " bag=")
 	j := strings.Index(rec, " full=")
@@ -768,10 +818,11 @@ func (e *explorer) explore(r *runner, clock bool, path []choice) int {
 		return id
 	}
 	cs := exploreChoices(w, clock)
+	h0, last0 := r.h, r.last
 	for n, c := range cs {
 		r2 := r
 		if n > 0 {
-			r2 = e.newRunner(path) // the real scheduler cannot be cloned: re-execute the prefix
+			r2 = e.silentRunner(path, h0, last0) // the real scheduler cannot be cloned: re-execute the prefix
 		}
 		kind := r2.step(c)
 		p2 := append(append([]choice{}, path...), c)
@@ -825,7 +876,7 @@ func (e *explorer) graphOracle() {
 	for i := range good {
 		if !good[i] && e.term[i] == "" {
 			e.classes["C05/no-termination/quit-unreachable"] = true
-			out.Fail("C05/no-termination/quit-unreachable", "a reachable state from which the scheduler can never quit", e.exploreLine())
+			report("C05/no-termination/quit-unreachable", "a reachable state from which the scheduler can never quit", e.exploreLine())
 			break
 		}
 	}
@@ -847,7 +898,7 @@ func (e *explorer) graphOracle() {
 				}
 				if col[ed.to] == 1 {
 					e.classes["C05/no-termination/cycle-without-poll"] = true
-					out.Fail("C05/no-termination/cycle-without-poll", "a cycle of steps none of which is a poll (walker file not present / ramp-up not elapsed)", e.exploreLine())
+					report("C05/no-termination/cycle-without-poll", "a cycle of steps none of which is a poll (walker file not present / ramp-up not elapsed)", e.exploreLine())
 					return
 				}
 				if col[ed.to] == 0 {
@@ -875,7 +926,7 @@ func exhaustive(g genCfg, W int, seeds []fileSeed, budget int) {
 		out.Count("cfg:no-parallel")
 		return
 	}
-	e := &explorer{g: g, W: W, seeds: seeds, prefix: "RUN " + cfg + " fix=0 files=" + seedsString(seeds),
+	e := &explorer{g: g, W: W, seeds: seeds, prefix: "RUN " + cfg + " fix=4 files=" + seedsString(seeds),
 		visited: map[string]int{}, classes: map[string]bool{}, budget: budget}
 	r := e.newRunner(nil)
 	var ans string
@@ -883,7 +934,7 @@ func exhaustive(g genCfg, W int, seeds []fileSeed, budget int) {
 		cls := "C05/init-failed"
 		if r.w.ended == "panic:init" {
 			cls = panicClass(r.w.panicMsg) + "/at-init"
-			out.Fail(cls, "BuildParallelProcessor panicked: "+r.w.panicMsg, e.prefix+" sched=- v=0")
+			report(cls, "BuildParallelProcessor panicked: "+r.w.panicMsg, e.prefix+" sched=- v=0")
 		}
 		r.w.close()
 		ans = "states=0 trunc=false viol=" + cls
@@ -915,6 +966,10 @@ func exhaustive(g genCfg, W int, seeds []fileSeed, budget int) {
 }
 
 // ---------------------------------------------------------------- main
+
+var corpusRuns = []string{
+	"RUN g=p:10:0/0/0:0:6:30:30 w=2 k=10 st=S0;S0;S0;M0 bs=0-30 we=0-30 re=6-30 start=6 xi=0 idx=0 fix=4 files=- sched=0,0,0,0,0,0,0,0,0,2,2,1,2,2,2,2,5,6,6,0,6,6,6,0e,6e,7e,0e,6e,6e,6e,1e,5e,5e,5e,1e,4e,5e,5e,1e,2e,3e,3e,3e,3e,2e,2e,2e,3e,4e,2e,3e,3e,3e,3e,4e,2e,3e,3e,3e,3e,4e,0e,3e,3e,3e,0e,2e,2e,2e,0e,2e,2e,2e,2e,0e,1e,1e,1e,1e,2e,1e,1e,1e,1e,1e,0e,1e,1e,1e,0e,0e,0e,0e v=0",
+}
 
 func main() {
 	o := common.ParseFlags()
@@ -967,7 +1022,7 @@ func main() {
 		}
 	}
 
-	nRandom, nExh, budget := 500, 45, 30000
+	nRandom, nExh, budget := 500, 40, 2500
 	if o.Thorough() {
 		nRandom, nExh, budget = 6000, 1200, 120000
 	}
@@ -991,14 +1046,23 @@ func main() {
 		w     int
 		files string
 	}
-	for _, c := range []exh{
-		{"p:10:5/25:25:25:40:40", 2, "-"},
+	corpusExh := []exh{
+		{"p:10:5/25:25:25:40:40", 1, "-"},
 		{"p:10:0:0:0:20:20", 1, "P0.0:0-10"},
-		{"p:10:0/0/0:0:6:30:30", 2, "-"},
-		{"p:10:5/5:5:5:30:30", 2, "-"},
 		{"d:10:20/20:20:38:50:50", 1, "P1.0:20-30"},
-	} {
-		exhaustive(parseGen(c.g), c.w, parseSeeds(c.files), 200000)
+		{"p:10:30:0:0:20:20", 1, "-"}, // the store starts after the hand-off: stage index shift (F21)
+	}
+	if o.Thorough() {
+		corpusExh = append(corpusExh, exh{"p:10:5/5:5:5:30:30", 1, "-"}, exh{"p:10:5/25:25:25:40:40", 2, "-"}, exh{"p:10:0/0/0:0:6:30:30", 2, "-"}, exh{"p:10:5/5:5:5:30:30", 2, "-"},
+			exh{"p:10:5/5:5:5:50:50", 3, "-"})
+	}
+	for _, c := range corpusExh {
+		exhaustive(parseGen(c.g), c.w, parseSeeds(c.files), 400000)
+	}
+	// witnesses found by the model's explorer, replayed on the real code (cheap): three store stages + mapper on an
+	// empty cache deadlock (F19)
+	for _, l := range corpusRuns {
+		emit(l, true)
 	}
 	for n := 0; n < nRandom; n++ {
 		r := rng.Fork()
